@@ -12,7 +12,7 @@ CONFIG_NAMES = {'_cookie_name', '_cookie_max_age', '_cookie_path', '_cookie_doma
 # names of the model's methods (spelled here only to avoid writing code-point lists by hand in Coq)
 METHS = ['get', '__getitem__', 'items', 'values', 'keys', '__contains__', '__len__', '__iter__',
          'clear', 'update', 'setdefault', 'pop', 'popitem', '__setitem__', '__delitem__',
-         'flash', 'pop_flash', 'peek_flash', 'new_csrf_token', 'get_csrf_token', 'changed', 'invalidate']
+         'flash', 'pop_flash', 'peek_flash', 'new_csrf_token', 'get_csrf_token', 'changed', 'invalidate', '__ior__']
 
 
 def _ident(n):
